@@ -462,7 +462,9 @@ class Values:
     def worlds_for(self, itype):
         if itype not in self.worlds:
             try:
-                self.worlds[itype] = [World(self.rng, self.cell, self.gdim, itype, self.cplx, conforming=True) for _ in range(self.n)]
+                # (an integral type registered by the workload itself integrates over cells: its integrands are read in a cell world)
+                wt = "cell" if itype.startswith("vf_macro_cell") else itype
+                self.worlds[itype] = [World(self.rng, self.cell, self.gdim, wt, self.cplx, conforming=True) for _ in range(self.n)]
             except oracle.Unsupported:
                 self.worlds[itype] = None
         return self.worlds[itype]
@@ -945,10 +947,44 @@ def probe_case(ctx, i, rng):
             ctx.count("probe_undecided")
 
 
+def registered_type_case(ctx, i, rng):
+    """An integral type registered through the public extension point ufl.register_integral_type AFTER forms have been
+    grouped in this process: its integrals are grouped like any others (nothing may be dropped)."""
+    cell, gdim = "triangle", 2
+    base, pieces = gen_form(rng, cell, gdim, False, 3, 0, ["cell"], metadata_fn=lambda r: None, subdomain_fn=lambda r: None, depth=(1,))
+    mesh = base.integrals()[0].ufl_domain()
+    f, g, h = pieces[0][2], pieces[1][2], pieces[2][2]
+    vals = Values(rng, cell, gdim, False)
+    with warnings.catch_warnings():
+        warnings.simplefilter("ignore")
+        # a grouping before the registration (whatever this process did so far)
+        group_form_integrals(f * ufl.dx(1, domain=mesh) + g * ufl.dx(domain=mesh), (mesh,), do_append_everywhere_integrals=True)
+        k_ = rng.randrange(3)
+        itype, mname = f"vf_macro_cell_{k_}", f"dVF{k_}"
+        ufl.register_integral_type(itype, mname)
+        dV = ufl.Measure(mname, domain=mesh)
+        md = rng.choice([None, {"quadrature_degree": 3}])
+        F = (f * ufl.dx(1, domain=mesh) + g * dV(1) + h * dV + (2 * f) * dV((1, 2), metadata=md) + (3 * g) * ufl.dx(domain=mesh))
+        for append in (True, False):
+            try:
+                G = group_form_integrals(F, F.ufl_domains(), do_append_everywhere_integrals=append)
+            except Exception as ex:
+                ctx.count("registered_type_rejected")
+                ctx.covered("rejected_with", "registered-type: " + type(ex).__name__ + ": " + str(ex)[:60])
+                continue
+            ctx.count("registered_type_pairs")
+            v, _ = judge_group_event(ctx, vals, list(F.integrals()), append, list(G.integrals()), label="group_form_integrals")
+            if v == "held":
+                ctx.count("registered_type_held")
+                ctx.add_distinct(("registered-type", k_, append, md is None))
+
+
 # ------------------------------------------------------------------------- random cases
 def case(ctx, i, rng):
     if i < NPROBES:
         return probe_case(ctx, i, rng)
+    if rng.random() < 0.03:
+        return registered_type_case(ctx, i, rng)
     cell, gdim = rng.choice(CELLS)
     cplx = rng.random() < 0.2
     mode = "pipeline" if rng.random() < 0.22 else "direct"
